@@ -41,6 +41,8 @@ ZOO = [
     'import deal\n\n@deal.example(lambda: f(1) == 1)\n@deal.example(lambda: f("a", b=2) == None)\n@deal.pre(lambda a, b=1: a > 0)\n@deal.post(lambda r: r != 1)\n@deal.ensure(lambda a, b=1, result=0: result)\ndef f(a, b=1):\n    return a\n',
     'import deal\n\n@deal.pre(lambda x: undefined_name(x))\n@deal.post(lambda r: helper(r))\ndef f(x):\n    return 1\n\ndef helper(r):\n    raise ValueError\n\n@deal.safe\ndef g():\n    f(2)\n',
     'import deal\n\n@deal.safe\ndef f():\n    return 1 / 0\n\n@deal.safe\nasync def g():\n    yield 1\n    assert False\n',
+    'import deal\n\n@deal.post(lambda r: r)\ndef f(x):\n    if x: return {[1]: 2}\n    if x > 1: return {[1, 2]}\n    if x > 2: return {{}: 1}\n    return {(1, [2]): 3}\n\n@deal.pre(lambda a: a)\ndef g(a): return a\n\n@deal.pure\ndef h():\n    return g({[1]: 2}) or g({[1]})\n',
+    'import deal\n\n@deal.has()\ndef f():\n    n = 0\n    def inc():\n        nonlocal n\n        n += 1\n    inc()\n    return n\n\ndef g():\n    k = 0\n    def h():\n        nonlocal k\n        k = 1\n    h()\n\n@deal.pure\ndef p():\n    global Z\n    g()\n',
     'import deal\n\n@deal.raises()\ndef f():\n    raise\n    raise ValueError()()\n    raise (ValueError)\n    raise x.y.Z\n    raise lower()\n',
 ]
 
